@@ -31,7 +31,7 @@ from qstatic.interp import ClassRef, Instance
 from qstatic.src import AnalysisError
 
 LEVEL = "other"
-EXPLANATION = ("Guard prefixes of ~48 public entry points are interpreted (never run) over abstract argument "
+EXPLANATION = ("Guard prefixes of 50 public entry points (48 routines, 2 constructors) are interpreted (never run) over abstract argument "
                "descriptors (kind, ndim, shape, Hermitian flag, option value); each frozen out-of-domain cell must end in "
                "an explicit raise/assert of the tabulated family that dominates every effect and normal return in the "
                "pruned statement CFG; each in-domain boundary descriptor must pass every guard.")
@@ -44,16 +44,23 @@ INF = float("inf")
 # ======================================================================================
 
 class Arr:
-    def __init__(self, kind, shape, herm=False, val=None):
+    def __init__(self, kind, shape, herm=False, val=None, herm_off=None, diag_real=None):
         self.kind, self.shape, self.herm, self.val = kind, tuple(shape), herm, val
+        self.herm_off, self.diag_real = herm_off, diag_real
 
     def build(self, owner):
-        return ArrDesc(self.kind, self.shape, herm=self.herm, val=self.val, owner=owner)
+        return ArrDesc(self.kind, self.shape, herm=self.herm, val=self.val, owner=owner, herm_off=self.herm_off,
+                       diag_real=self.diag_real)
 
     def label(self):
         s = f"{self.kind}{self.shape}".replace(" ", "")
-        if len(self.shape) == 2 and self.shape[0] == self.shape[1] and self.kind == "quat":
-            s += " herm" if self.herm else " non-herm"
+        if len(self.shape) == 2 and self.shape[0] == self.shape[1]:
+            if self.herm:
+                s += " herm"
+            elif self.herm_off:
+                s += " herm-offdiag non-real-diag"
+            elif self.kind == "quat":
+                s += " non-herm"
         return s
 
 
@@ -77,8 +84,27 @@ class Lit:
         return repr(self.value)
 
 
+class Tup:
+    """A python tuple of descriptors (component form: four real planes)."""
+
+    def __init__(self, *items):
+        self.items = items
+
+    def build(self, owner):
+        return tuple(spec_of(x).build(owner) for x in self.items)
+
+    def label(self):
+        return "(" + ", ".join(spec_of(x).label() for x in self.items) + ")"
+
+
 def Q(*shape, herm=False, val=None):
     return Arr("quat", shape, herm, val)
+
+
+def QD(*shape):
+    """Hermitian off the diagonal, diagonal entries with non-zero imaginary parts: non-Hermitian by a margin, but
+    invisible to a test that looks at the strict upper / lower triangle only."""
+    return Arr("quat", shape, herm=False, herm_off=True, diag_real=False)
 
 
 def R(*shape, val=None):
@@ -90,7 +116,7 @@ def C(*shape):
 
 
 def spec_of(v):
-    return v if isinstance(v, (Arr, Sparse, Lit)) else Lit(v)
+    return v if isinstance(v, (Arr, Sparse, Lit, Tup)) else Lit(v)
 
 
 # ======================================================================================
@@ -104,10 +130,11 @@ class Cell:
 
 class Entry:
     def __init__(self, mod, qual, base, main=None, domain=None, herm=False, options=None, indomain=(), cells=(),
-                 self_cls=None, self_sparse=None, nq=("real", "complex", "sparse", "list"), note=""):
+                 self_cls=None, self_sparse=None, self_new=None, nq=("real", "complex", "sparse", "list"), note=""):
         self.mod, self.qual, self.base, self.main, self.domain, self.herm = mod, qual, base, main, domain, herm
         self.options, self.indomain, self.cells = options or {}, list(indomain), list(cells)
         self.self_cls, self.self_sparse, self.nq, self.note = self_cls, self_sparse, nq, note
+        self.self_new = self_new        # constructor entry: self is the (not yet caller-visible) object under construction
 
     @property
     def name(self):
@@ -132,6 +159,9 @@ JUNK_SIDE = ["both", "top", "Right", 0]
 JUNK_MODE = [3, -1, 5, "0"]
 JUNK_BOUNDARY = ["reflect", "zero", "Periodic"]
 JUNK_AXIS = ["y", "z", "X"]
+JUNK_FORMAT = ["foo", "Complex", None]
+JUNK_PREC = ["ilu", "LEFT", "jacobi", "left-lu"]
+JUNK_COLSOLVER = ["lu", "cholesky", "QRR"]
 
 NQ_ALL = ("real", "complex", "sparse", "list")
 NQ_SHAPED = ("real", "complex", "sparse")     # entry reads .shape first: a python list fails implicitly (AttributeError), not by a guard
@@ -146,12 +176,13 @@ def _dtype_cell(reason):
     return Cell("NQ", "ValueError", reason)
 
 
-def _schur(name, extra_base=None, options=None):
-    base = {"A": Q(2, 2)}
-    base.update(extra_base or {})
-    return Entry("decomp.schur", name, base, main="A", domain="square", options=options, cells=[
+def _schur(name, opt, values, junk):
+    return Entry("decomp.schur", name, {"A": Q(2, 2)}, main="A", domain="square", options={opt: values}, cells=[
         Cell("ND", "ValueError", "`A.ndim != 2 or ...` first statement of the body"),
-        Cell("NS", "ValueError", "`A.shape[0] != A.shape[1]` in the same guard, before hessenbergize / any copy")])
+        Cell("NS", "ValueError", "`A.shape[0] != A.shape[1]` in the same guard, before hessenbergize / any copy"),
+        Cell("OPT", "ValueError", f"fix 2ee4a6f: `if {opt} not in {tuple(values)!r}: raise` directly after the square guard, "
+                                  f"before hessenbergize (an unknown name used to fall through to a default flavour)",
+             variants=[V(f"{opt}={o!r}", **{opt: o}) for o in junk])])
 
 
 TABLE = [
@@ -222,6 +253,7 @@ TABLE = [
                       variants=[V("d='Study'", d="Study")]),
                  Cell("NH", "ValueError", "'Moore': `if not ishermitian(X): raise` before the eigen-solve is imported and called",
                       variants=[V("X=quat(1,1) non-herm d='Moore'", X=Q(1, 1), d="Moore"),
+                                V("X=quat(2,2) herm-offdiag non-real-diag d='Moore'", X=QD(2, 2), d="Moore"),
                                 V("X=quat(2,2) non-herm d='Moore'", X=Q(2, 2), d="Moore"),
                                 V("X=quat(3,3) non-herm d='Moore'", X=Q(3, 3), d="Moore")])]),
     Entry("utils", "rank", {"X": Q(2, 3)}, main="X", domain="any", nq=NQ_SHAPED, cells=[
@@ -253,13 +285,26 @@ TABLE = [
         Cell("OPT", "NotImplementedError", "`if axis != 'x': raise NotImplementedError` before the output is allocated",
              variants=[V(f"axis={o!r}", axis=o) for o in JUNK_AXIS])]),
     Entry("utils", "power_iteration_nonhermitian", {"A": Q(2, 2), "subfield_axis": "x"}, main="A", domain="square",
-          nq=NQ_ARRAY, options={"subfield_axis": ["x"], "eigenvalue_format": ["complex", "quaternion"]}, cells=[
-        Cell("ND", "ValueError", "delegated to quaternion_to_complex_adjoint (generic, non-Hermitian descriptor: the "
-                                 "Hermitian fast path is not taken)"),
-        Cell("NS", "ValueError", "delegated to quaternion_to_complex_adjoint"),
-        _dtype_cell("delegated to quaternion_to_complex_adjoint"),
-        Cell("OPT", "NotImplementedError", "delegated: axis guard of quaternion_to_complex_adjoint (non-Hermitian descriptor)",
-             variants=[V(f"subfield_axis={o!r}", subfield_axis=o) for o in JUNK_AXIS])]),
+          options={"subfield_axis": ["x"], "eigenvalue_format": ["complex", "quaternion"]}, cells=[
+        # fix 981eb0a: the three guards are the first statements, in front of the Hermitian fast path, so every cell
+        # must hold for Hermitian (symmetric) descriptors as well
+        Cell("ND", "ValueError", "`not isinstance(A, np.ndarray) or A.ndim != 2 or ...` first statement"),
+        Cell("NS", "ValueError", "`... or A.shape[0] != A.shape[1] or ...` in the same guard"),
+        Cell("NQ", "ValueError", "`not isinstance(A, np.ndarray) ... or A.dtype != np.quaternion`; a real symmetric ndarray used to "
+                                 "take the Hermitian fast path and was answered",
+             variants=[V("A=real(2,2)", A=R(2, 2)), V("A=complex(2,2)", A=C(2, 2)),
+                       V("A=real(2,2) herm", A=Arr("real", (2, 2), herm=True)),
+                       V("A=complex(2,2) herm", A=Arr("complex", (2, 2), herm=True)),
+                       V("A=real(1,1) herm", A=Arr("real", (1, 1), herm=True)),
+                       V("A=SparseQuaternionMatrix(2,2)", A=Sparse((2, 2))), V("A=list", A=[[1.0, 2.0], [2.0, 1.0]])]),
+        Cell("OPT", "NotImplementedError", "`if subfield_axis != 'x': raise NotImplementedError` second guard, in front of the "
+                                           "Hermitian fast path (which ignores the axis)",
+             variants=[V(f"subfield_axis={o!r} A non-herm", subfield_axis=o) for o in JUNK_AXIS] +
+                      [V(f"subfield_axis={o!r} A herm", subfield_axis=o, A=Q(2, 2, herm=True)) for o in JUNK_AXIS]),
+        Cell("OPT[eigenvalue_format]", "ValueError", "`eigenvalue_format not in ('complex', 'quaternion')` third guard (an unknown "
+                                                     "name used to mean 'complex')",
+             variants=[V(f"eigenvalue_format={o!r} A non-herm", eigenvalue_format=o) for o in JUNK_FORMAT] +
+                      [V(f"eigenvalue_format={o!r} A herm", eigenvalue_format=o, A=Q(2, 2, herm=True)) for o in JUNK_FORMAT])]),
     # ---------------------------------------------------------------- quatica/solver.py
     Entry("solver", "DeepLinearNewtonSchulz.compute", {"X": Q(3, 2), "layers": [2, 1]}, self_cls="DeepLinearNewtonSchulz",
           indomain=[V("X=quat(3,2) layers=[2, 1]"), V("X=quat(1,1) layers=[1, 1]", X=Q(1, 1), layers=[1, 1]),
@@ -268,12 +313,30 @@ TABLE = [
                       variants=[V("X=quat(3,2) layers=[3, 1]", layers=[3, 1]), V("X=quat(3,2) layers=[1, 2]", layers=[1, 2]),
                                 V("X=quat(1,1) layers=[2, 1]", X=Q(1, 1), layers=[2, 1])])]),
     Entry("solver", "QGMRESSolver.solve", {"A": Q(2, 2), "b": Q(2, 1)}, self_cls="QGMRESSolver",
+          options={"self.preconditioner": ["none", None, "NONE"]},
           indomain=[V("A=quat(2,2) b=quat(2,1)"), V("A=quat(1,1) b=quat(1,1)", A=Q(1, 1), b=Q(1, 1)),
-                    V("A=quat(3,3) b=quat(3,1)", A=Q(3, 3), b=Q(3, 1))],
-          cells=[Cell("NS", "ValueError", "`A0.shape[0] != A0.shape[1]` on the component planes, before the core routine "
-                                          "(default configuration: no preconditioner)",
-                      variants=[V("A=quat(2,3) b=quat(2,1)", A=Q(2, 3)), V("A=quat(3,2) b=quat(3,1)", A=Q(3, 2), b=Q(3, 1)),
-                                V("A=quat(1,3) b=quat(1,1)", A=Q(1, 3), b=Q(1, 1))]),
+                    V("A=quat(3,3) b=quat(3,1)", A=Q(3, 3), b=Q(3, 1)),
+                    V("A=4 real planes (2,2) b=4 real planes (2,1)", A=Tup(*[R(2, 2)] * 4), b=Tup(*[R(2, 1)] * 4)),
+                    # with the LU preconditioner the later guards see the preconditioned system, whose shape the evaluator
+                    # does not model: only the guards in front of the preconditioning block are claimed for it
+                    V("self.preconditioner='left_lu' (guards in front of the preconditioning block)",
+                      **{"self.preconditioner": "left_lu", "@partial": True}),
+                    V("self.preconditioner='LEFT_LU' (guards in front of the preconditioning block)",
+                      **{"self.preconditioner": "LEFT_LU", "@partial": True})],
+          cells=[Cell("NS", "ValueError", "fix 62e019f: `shape_A = getattr(A, 'shape', None); if shape_A is not None and (len(shape_A) "
+                                          "!= 2 or shape_A[0] != shape_A[1]): raise` in front of the preconditioning block, for "
+                                          "every preconditioner",
+                      variants=[V(f"A={Q(*sa).label()} b={Q(*sb).label()} self.preconditioner={p!r}", A=Q(*sa), b=Q(*sb),
+                                  **{"self.preconditioner": p})
+                                for (sa, sb) in [((2, 3), (2, 1)), ((3, 2), (3, 1)), ((1, 3), (1, 1)), ((3,), (3, 1))]
+                                for p in ("none", "left_lu")]),
+                 Cell("NS[components]", "ValueError", "`A0.shape[0] != A0.shape[1]` on the component planes (input given as four "
+                                                      "real planes has no shape attribute and reaches this second test)",
+                      variants=[V("A=4 real planes (2,3) b=4 real planes (2,1)", A=Tup(*[R(2, 3)] * 4), b=Tup(*[R(2, 1)] * 4)),
+                                V("A=4 real planes (3,2) b=4 real planes (3,1)", A=Tup(*[R(3, 2)] * 4), b=Tup(*[R(3, 1)] * 4))]),
+                 Cell("OPT", "ValueError", "fix 62e019f: `prec = self.preconditioner.lower(); if prec not in ('none', 'left_lu'): "
+                                           "raise` in front of the preconditioning block (constructor option read through self)",
+                      variants=[V(f"self.preconditioner={o!r}", **{"self.preconditioner": o}) for o in JUNK_PREC]),
                  Cell("SZ", "ValueError", "fix f5deb2d: `b0.ndim != 2 or b0.shape[0] != A0.shape[0] or b0.shape[1] != 1`; "
                                           "b0/A0 come from self._quat_to_components (interpreted on the descriptor: four "
                                           "real planes of the same shape)",
@@ -281,6 +344,17 @@ TABLE = [
                                 V("A=quat(2,2) b=quat(2,2)", b=Q(2, 2)), V("A=quat(2,2) b=quat(2,)", b=Q(2)),
                                 V("A=quat(3,3) b=quat(1,1)", A=Q(3, 3), b=Q(1, 1))],
                       rule="C20.D3.coupling")]),
+    # constructors: the option guard sits in __init__; stores to the object under construction are not effects
+    Entry("solver", "RandomizedSketchProjectPseudoinverse.__init__", {"column_solver": "qr"},
+          self_new="RandomizedSketchProjectPseudoinverse",
+          options={"column_solver": ["qr", "spd", "QR", "SPD", None, 3]}, cells=[
+        Cell("OPT", "ValueError", "fix 071eb29: `if self.column_solver not in ('qr', 'spd'): raise` right after the (lower-cased) "
+                                  "assignment; a non-string falls back to 'qr' by design",
+             variants=[V(f"column_solver={o!r}", column_solver=o) for o in JUNK_COLSOLVER])]),
+    Entry("solver", "HybridRSPNewtonSchulz.__init__", {"column_solver": "qr"}, self_new="HybridRSPNewtonSchulz",
+          options={"column_solver": ["qr", "spd", "QR", "SPD", None, 3]}, cells=[
+        Cell("OPT", "ValueError", "fix 071eb29: same guard in the hybrid solver's constructor",
+             variants=[V(f"column_solver={o!r}", column_solver=o) for o in JUNK_COLSOLVER])]),
     Entry("solver", "RandomizedSketchProjectPseudoinverse.compute_column_variant", {"A": Q(3, 2)}, main="A",
           domain="tall", self_cls="RandomizedSketchProjectPseudoinverse", cells=[
         Cell("OR", "ValueError", "`m, n = A.shape; if m < n: raise` before the clamp, the sketch and X0")]),
@@ -343,11 +417,12 @@ TABLE = [
     Entry("decomp.hessenberg", "hessenbergize", {"A": Q(2, 2)}, main="A", domain="square", cells=[
         Cell("ND", "ValueError", "`A.ndim != 2 or ...` first statement"),
         Cell("NS", "ValueError", "`... or A.shape[0] != A.shape[1]` before the copy")]),
-    _schur("quaternion_schur", options={"shift": ["rayleigh", "wilkinson", "double"]}),
-    _schur("quaternion_schur_pure", options={"shift_mode": ["none", "rayleigh"]}),
-    _schur("quaternion_schur_pure_implicit"),
-    _schur("quaternion_schur_unified", options={"variant": ["none", "rayleigh", "implicit", "aed", "ds"]}),
-    _schur("quaternion_schur_experimental", options={"variant": ["aed_windowed", "francis_ds"]}),
+    _schur("quaternion_schur", "shift", ["rayleigh", "wilkinson", "double"], ["foo", "Rayleigh", "francis", None]),
+    _schur("quaternion_schur_pure", "shift_mode", ["none", "rayleigh"], ["foo", "wilkinson", "Rayleigh", None]),
+    _schur("quaternion_schur_pure_implicit", "shift_mode", ["none", "rayleigh"], ["foo", "wilkinson", "Rayleigh", None]),
+    _schur("quaternion_schur_unified", "variant", ["none", "rayleigh", "implicit", "aed", "ds"],
+           ["foo", "AED", "wilkinson", None]),
+    _schur("quaternion_schur_experimental", "variant", ["aed_windowed", "francis_ds"], ["foo", "aed", "ds", None]),
     # ---------------------------------------------------------------- quatica/tensor.py
     Entry("tensor", "tensor_unfold", {"T": Q(2, 3, 4), "mode": 0}, options={"mode": [0, 1, 2]},
           indomain=[V("T=quat(2,3,4) mode=0"), V("T=quat(1,1,1) mode=1", T=Q(1, 1, 1), mode=1),
@@ -456,7 +531,8 @@ def cell_variants(entry, cell):
     if cls == "NS":
         return [V(f"{main}=quat{s}".replace(" ", ""), **{main: Q(*s)}) for s in NONSQUARE]
     if cls == "NH":
-        return [V(f"{main}=quat{s} non-herm".replace(" ", "", 1), **{main: Q(*s, herm=False)}) for s in [(1, 1), (2, 2), (3, 3)]]
+        return [V(f"{main}=quat{s} non-herm".replace(" ", "", 1), **{main: Q(*s, herm=False)}) for s in [(1, 1), (2, 2), (3, 3)]] + \
+               [V(f"{main}={QD(*s).label()}", **{main: QD(*s)}) for s in [(2, 2), (3, 3)]]
     if cls == "OR":
         shapes = [(2, 3), (1, 3), (1, 2)] if entry.domain == "tall" else [(3, 2), (3, 1), (2, 1)]
         return [V(f"{main}=quat{s}".replace(" ", ""), **{main: Q(*s)}) for s in shapes]
@@ -503,15 +579,15 @@ class Runner:
         inst.owner = owner
         return inst
 
-    def solver_instance(self, clsname):
+    def solver_instance(self, clsname, kw=None):
         ci = self.prog.cls("solver", clsname)
         dom = DescDomain()
         it = GuardInterp(self.prog, dom)
         dom._interp = it
         try:
-            inst = it.call(ClassRef(ci), [], {})
+            inst = it.call(ClassRef(ci), [], dict(kw or {}))
         except Exception as e:
-            raise AnalysisError(f"C20: cannot interpret {clsname}.__init__ with default arguments: {e}")
+            raise AnalysisError(f"C20: cannot interpret {clsname}.__init__ with arguments {kw or {}}: {e}")
         inst.owner = "self"
         return inst
 
@@ -524,10 +600,14 @@ class Runner:
     def run(self, entry, fi, over, chooser=None, max_steps=20000):
         call = dict(entry.base)
         call.update(over)
-        kwargs = {p: self.build(v, p) for p, v in call.items()}
+        call.pop("@partial", None)
+        self_kw = {p[5:]: spec_of(v).build(None) for p, v in call.items() if p.startswith("self.")}
+        kwargs = {p: self.build(v, p) for p, v in call.items() if not p.startswith("self.")}
         bound = None
         if entry.self_cls:
-            bound = self.solver_instance(entry.self_cls)
+            bound = self.solver_instance(entry.self_cls, self_kw)
+        elif entry.self_new:
+            bound = Instance(self.prog.cls(entry.mod, entry.self_new))      # no owner: constructor stores are not effects
         elif entry.self_sparse:
             bound = self.sparse(entry.self_sparse, "self")
         self.runs += 1
@@ -538,6 +618,10 @@ class Runner:
         """Every path consistent with the descriptor: UNKNOWN conditions that are not guard predicates are explored
         (both outcomes), bounded.  Returns (outcomes, complete)."""
         return explore(lambda ch: self.run(entry, fi, over, chooser=ch, max_steps=6000), policy=policy, max_paths=max_paths)
+
+
+def policy_partial(interp, node, cond):
+    return "stop"
 
 
 def policy_d1(interp, node, cond):
@@ -565,6 +649,10 @@ def _passed(outcome, F, g):
 def _stop_at_guard_test(outcome):
     """Did interpretation stop while evaluating the test of a guard site (predicate not evaluable)?"""
     if outcome.kind != "stop" or not outcome.stack:
+        return False
+    if outcome.work_before:
+        # numeric work (unknown values) precedes this statement: the run is past the guard prefix, deep in the body;
+        # an unknown shape test of some helper there says nothing about the cell -> "not rejected", not "undecidable"
         return False
     d, fi, stmt = outcome.stack[-1]
     try:
@@ -656,7 +744,8 @@ def run(ctx):
             return None if guards_ahead(fi, here, todo, set()) else "stop"
 
         for (lab, over) in indomain_variants(entry, ctx.thorough):
-            outs, complete = R_.run_all(entry, fi, over, policy_d2)
+            partial = bool(over.get("@partial"))
+            outs, complete = R_.run_all(entry, fi, over, policy_partial if partial else policy_d2)
             inst = f"{entry.name}:in-domain {lab}"
             if not complete:
                 problems.append(f"{inst}: more than {len(outs)} data-dependent paths in front of a guard")
@@ -676,7 +765,7 @@ def run(ctx):
                 for i, (cname, g, F, node) in enumerate(cellguards):
                     if _passed(o, F, node):
                         passed_any[i] = True
-                if o.kind != "return":
+                if o.kind != "return" and not partial:
                     todo = [(c, g) for (c, g, F, node) in cellguards if not _passed(o, F, node)]
                     ahead = guards_ahead(fi, o, [g for (_c, g) in todo], set())
                     if ahead:
@@ -702,13 +791,14 @@ def run(ctx):
     for p in problems[:10]:
         print(f"NOTE (undecided, reported next to the violation): {p}")
     if not ctx.findings:
-        # confirmed by reading: 48 entry points, 84 cells (83 D1 + the D3 coupling cell), 304 in-domain descriptors
-        ctx.require_instances("C20.D1.reject", 83)
-        ctx.require_instances("C20.D1.dominates", 84)
-        ctx.require_instances("C20.D2.accept", 300)
+        # confirmed by reading: 50 entry points (48 routines + 2 constructors), 94 cells (93 D1 + the D3 coupling cell),
+        # 324 in-domain descriptors in the quick tier
+        ctx.require_instances("C20.D1.reject", 93)
+        ctx.require_instances("C20.D1.dominates", 94)
+        ctx.require_instances("C20.D2.accept", 320)
         ctx.require_instances("C20.D3.coupling", 1)
-        if n_entries < 48:
-            raise AnalysisError(f"C20: {n_entries} entry points analysed, 48 confirmed by reading")
+        if n_entries < 50:
+            raise AnalysisError(f"C20: {n_entries} entry points analysed, 50 confirmed by reading")
 
 
 def _check_sites(prog, fi, fired, problems, ctx, seen=None):
